@@ -78,6 +78,10 @@ def clean(ctx, path, archive_ok, cancel, node, now):
             ArchiveFileCopy.file == file_from_path(path)
         )
 
+        # Cancelling only applies to files not yet removed by the daemon
+        if cancel:
+            query = query.where(ArchiveFileCopy.has_file != "N")
+
         # Add node, which may be omitted in cancel mode
         if node:
             query = query.where(ArchiveFileCopy.node == node)
